@@ -160,33 +160,53 @@ func ruleDrain(c *Ctx, a *tcpAnchors) {
 	memo := map[*ssa.Function]int{}
 	readAddr := isCall("ss2/socks.ReadAddr")
 	n := 0
-	for _, cl := range eng.Calls(h) {
-		call, ok := cl.(*ssa.Call)
-		if !ok {
-			continue
+	seenFn := map[*ssa.Function]bool{}
+	var visit func(g *ssa.Function, d int)
+	visit = func(g *ssa.Function, d int) {
+		if seenFn[g] || d > 3 {
+			return
 		}
-		hit := readAddr(call)
-		for _, f := range repoCallees(c, call) {
-			if reaches(c, f, readAddr, memo) {
-				hit = true
+		seenFn[g] = true
+		for _, cl := range eng.Calls(g) {
+			call, ok := cl.(*ssa.Call)
+			if !ok {
+				continue
+			}
+			hit := readAddr(call)
+			var down []*ssa.Function
+			for _, f := range repoCallees(c, call) {
+				if reaches(c, f, readAddr, memo) {
+					hit = true
+					down = append(down, f)
+				}
+			}
+			if !hit {
+				continue
+			}
+			if errorResultIndex(call.Call.Signature()) < 0 {
+				// a helper of the handler that reports failures in another form: the address is read further down
+				for _, f := range down {
+					if eng.PkgPathOf(f) == eng.Mod+"/service" {
+						visit(f, d+1)
+					}
+				}
+				continue
+			}
+			n++
+			_, fail := p.SuccessEdges(g, []ssa.CallInstruction{call}, errorResultIndex(call.Call.Signature()))
+			if len(fail) == 0 {
+				c.CheckAt("DRAIN", short(g)+":address-read-error-tested", call, false, "the error of reading the target address is not tested")
+				continue
+			}
+			for _, e := range sortedEdges(fail) {
+				ok1, bad := eng.MustPass(edgePoint(e), drain)
+				c.Check("DRAIN", short(g)+":address-read-failure-drains", blockPos(p, e.To), ok1, fmt.Sprintf("after an unparseable address header the handler can return at %s without draining the client connection", p.IPos(bad)))
+				ok2, bad2 := eng.MustPassBefore(edgePoint(e), drain, isCloseLike)
+				c.Check("DRAIN", short(g)+":address-read-failure-no-close-before-drain", blockPos(p, e.To), ok2, fmt.Sprintf("the connection is closed at %s before the drain", p.IPos(bad2)))
 			}
 		}
-		if !hit || errorResultIndex(call.Call.Signature()) < 0 {
-			continue
-		}
-		n++
-		_, fail := p.SuccessEdges(h, []ssa.CallInstruction{call}, errorResultIndex(call.Call.Signature()))
-		if len(fail) == 0 {
-			c.CheckAt("DRAIN", short(h)+":address-read-error-tested", call, false, "the error of reading the target address is not tested")
-			continue
-		}
-		for _, e := range sortedEdges(fail) {
-			ok1, bad := eng.MustPass(edgePoint(e), drain)
-			c.Check("DRAIN", short(h)+":address-read-failure-drains", blockPos(p, e.To), ok1, fmt.Sprintf("after an unparseable address header the handler can return at %s without draining the client connection", p.IPos(bad)))
-			ok2, bad2 := eng.MustPassBefore(edgePoint(e), drain, isCloseLike)
-			c.Check("DRAIN", short(h)+":address-read-failure-no-close-before-drain", blockPos(p, e.To), ok2, fmt.Sprintf("the connection is closed at %s before the drain", p.IPos(bad2)))
-		}
 	}
+	visit(h, 0)
 	c.Floor("DRAIN", "address-read calls in the handler", n, 1)
 	// (3) client->target copy error: the copy whose source is the authenticated client connection (result 1 of the authenticator),
 	// wherever it lives; its failure edge must drain that source before any direction is closed
